@@ -23,6 +23,11 @@ TEMPLATES = ["echo {1..%s}", "echo {%s..3}", "echo {a..z..%s}", "echo {1..5..%s}
              "mapfile -s %s a </dev/null", "mapfile -O %s a </dev/null", "read -t %s x </dev/null", "read -u %s x", "echo ${#%s}", "for ((i=%s; i<1; i++)); do :; done", "echo {%s,}", "hash -p /bin/ls %s"]
 HERE_TAGS = ["$(", "$( ", "`", "${", "$((", "'", '"', "\\", "E", "''", "<", "&", "(", ")", "$x", "\n", "", "é", "#", "E$(", "\"E\"F", "\\E"]
 HERE_TAILS = ["", " ", "  ", "\n", " x\n", "\nE\n", "\nx\nE", "\n\n", " <<F\nE\nF\n", ")\nE\n"]
+PROMPT_DATE = ["%Q", "%", "%%", "%Ez", "%5", "%:::z", "%-", "%_Y", "%^a", "%#Z", "%+", "%s", "%N", "%f", "%.3f", "%E", "%O", "é%", "%é", "", "%Y-%m-%d %H:%M:%S %Z %z %j %U %e %k %l %p %P %c %x %X %G %g %V %u %w %C %y %D %F %T %R %r %n %t"]
+PROMPT_ESC = ["\\a\\d\\e\\h\\H\\j\\l\\n\\r\\s\\t\\T\\@\\A\\u\\v\\V\\w\\W\\!\\#\\$\\\\\\[\\]", "\\777", "\\0", "\\08", "\\400", "\\1", "\\", "\\D{", "\\D", "\\D{}", "\\[\\e[0m\\]", "\\x", "\\é", "$(echo \\w)", "${x@P}", "\\w" * 200]
+ALIASES = ["shopt -s expand_aliases\nalias e=''\ne\necho after $?\n", "shopt -s expand_aliases\nalias e=' '\ne x\necho after $?\n", "shopt -s expand_aliases\nalias e='e'\ne\necho after $?\n",
+           "shopt -s expand_aliases\nalias a=b b=a\na\necho after $?\n", "shopt -s expand_aliases\nalias e='echo '\nalias f=''\ne f\necho after $?\n", "shopt -s expand_aliases\nalias e='('\ne\necho after $?\n",
+           "shopt -s expand_aliases\nalias e='x=1'\ne\necho after $? $x\n", "shopt -s expand_aliases\nalias e='\\'\ne\necho after $?\n", "shopt -s expand_aliases\nalias e=\"'\"\ne\necho after $?\n"]
 WORD_NEST = [('${a:-"', '"}', "y"), ("${a:-", "}", "y"), ('"${a:+', '}"', "y"), ("${a%", "}", "y"), ("${a/", "/z}", "y"), ('${a:-"$(echo "', '")"}', "y"), ("$((1+", "))", "1"), ("$(echo ", ")", "y"),
              ("${a[", "]}", "0"), ("${a:", "}", "0"), ('"$[', ']"', "1"), ("@(", ")", "y"), ('"`echo ', '`"', "y")]
 NEST = [("(", ")", " :"), ("{ ", "; }", ":"), ("$(", ")", "echo x"), ("${x:-", "}", "y"), ("$((", "))", "1"), ("`", "`", None), ('"$(', ')"', "echo x"), ("[[ ! ", " ]]", "a"),
@@ -105,7 +110,8 @@ def run(tier):
     boundary = [tpl % b for tpl in TEMPLATES for b in BOUNDARY]
     nests = nest_family()
     heretags = [pre + "<<" + dash + tag + tail for pre in ("a", "cat ", "$(cat ", "{ cat ") for dash in ("", "-") for tag in HERE_TAGS for tail in HERE_TAILS]
-    for s in boundary + nests + heretags:
+    extras = ["x='\\D{%s}'; echo \"${x@P}\"; echo after" % sp for sp in PROMPT_DATE] + ["x='%s'; echo \"${x@P}\"; echo after" % e for e in PROMPT_ESC] + ALIASES
+    for s in boundary + nests + heretags + extras:
         corpus.add(s)
     corpus.discard("")
     corpus = sorted(corpus)
@@ -121,7 +127,7 @@ def run(tier):
                 continue
             v.violation("inproc:%s:%s" % (p.split(":")[0], corpus[r["id"]][:60]), {"kind": "panic in " + p.split(":")[0], "input": corpus[r["id"]], "panic": p})
     # (2) process-level execution
-    execset = set(boundary + nests + heretags)
+    execset = set(boundary + nests + heretags + extras)
     model_done = sorted(set(t["done"] for t in texts))
     model_cut = sorted(incomplete)
     k_done, k_cut = (14000, 6000) if tier == "quick" else (len(model_done), len(model_cut))
